@@ -586,3 +586,130 @@ pub proof fn theorem_multipart_roundtrip(ps: Seq<PV>, boundary: Seq<char>)
     lemma_parse_rest(ps, b, Seq::empty());
     assert(Seq::<PV>::empty() + ps =~= ps);
 }
+
+// ---------- rejection ----------
+// THEOREM (C16, opening boundary): a body whose first line is not a delimiter line is rejected
+pub proof fn theorem_multipart_no_opening_boundary(data: Seq<u8>, b: Seq<u8>)
+    requires !is_delim(first_line(data), b),
+    ensures parse_spec(data, b) is None,
+{
+}
+
+// THEOREM (C16, part without headers): every part of an accepted body has at least one header
+pub proof fn lemma_hdr_loop_nonempty(r: Seq<u8>, b: Seq<u8>, hs: Seq<HV>)
+    ensures hdr_loop(r, b, hs) is Body ==> hdr_loop(r, b, hs)->Body_0.len() > 0 && hdr_loop(r, b, hs)->Body_1.len() > 0,
+    decreases r.len()
+{
+    lemma_line_len(r);
+    let line = first_line(r);
+    let r2 = after_line(r);
+    if valid_utf8(line) {
+        let s = filter_ctl_spec(vstd::utf8::decode_utf8(line));
+        if trim_spec(s).len() != 0 && r2.len() != 0 && parse_header_spec(s).is_some() {
+            lemma_hdr_loop_nonempty(r2, b, hs.push(parse_header_spec(s).unwrap()));
+        }
+    }
+}
+pub proof fn lemma_parse_rec_headers(r: Seq<u8>, b: Seq<u8>, first: bool, acc: Seq<PV>)
+    requires all_have_headers(acc), parse_rec(r, b, first, acc) is Some,
+    ensures all_have_headers(parse_rec(r, b, first, acc).unwrap()),
+    decreases r.len()
+{
+    lemma_line_len(r);
+    let r1 = if first { after_line(r) } else { r };
+    lemma_hdr_loop_nonempty(r1, b, Seq::empty());
+    lemma_hdr_loop_shrinks(r1, b, Seq::empty());
+    match hdr_loop(r1, b, Seq::empty()) {
+        HdrOut::Body(hs, r2) => {
+            let bl = body_loop(r2, b, Seq::empty());
+            lemma_body_loop_shrinks(r2, b, Seq::empty());
+            let acc2 = acc.push((hs, trim_body(bl.1)));
+            assert(all_have_headers(acc2)) by {
+                assert forall|i: int| 0 <= i < acc2.len() implies (#[trigger] acc2[i]).0.len() > 0 by { if i < acc.len() { assert(acc2[i] == acc[i]); } }
+            }
+            if bl.2.len() != 0 { lemma_parse_rec_headers(bl.2, b, false, acc2); }
+        },
+        _ => {},
+    }
+}
+pub proof fn theorem_multipart_parts_have_headers(data: Seq<u8>, b: Seq<u8>)
+    requires parse_spec(data, b) is Some,
+    ensures all_have_headers(parse_spec(data, b).unwrap()),
+{
+    lemma_parse_rec_headers(data, b, true, Seq::empty());
+}
+
+// THEOREM (C16, closing boundary): the last line of an accepted body is a delimiter line, or one blank line directly after one
+pub open spec fn blank_line(l: Seq<u8>) -> bool {
+    valid_utf8(l) && trim_spec(filter_ctl_spec(vstd::utf8::decode_utf8(l))).len() == 0
+}
+pub open spec fn closed(r: Seq<u8>, b: Seq<u8>, prev_delim: bool) -> bool
+    decreases r.len() via closed_dec
+{
+    if r.len() == 0 { prev_delim }
+    else if after_line(r).len() == 0 { is_delim(first_line(r), b) || (prev_delim && blank_line(first_line(r))) }
+    else { closed(after_line(r), b, is_delim(first_line(r), b)) }
+}
+#[via_fn]
+proof fn closed_dec(r: Seq<u8>, b: Seq<u8>, prev_delim: bool) {
+    lemma_line_len(r);
+}
+pub proof fn lemma_hdr_loop_closed(r: Seq<u8>, b: Seq<u8>, hs: Seq<HV>, pd: bool)
+    ensures
+        hdr_loop(r, b, hs) is Eof ==> closed(r, b, true) && hs.len() == 0,
+        hdr_loop(r, b, hs) is Body ==> closed(r, b, pd) == closed(hdr_loop(r, b, hs)->Body_1, b, false),
+    decreases r.len()
+{
+    lemma_line_len(r);
+    let line = first_line(r);
+    let r2 = after_line(r);
+    if valid_utf8(line) {
+        let s = filter_ctl_spec(vstd::utf8::decode_utf8(line));
+        if trim_spec(s).len() != 0 && r2.len() != 0 && parse_header_spec(s).is_some() && !is_delim(line, b) {
+            lemma_hdr_loop_closed(r2, b, hs.push(parse_header_spec(s).unwrap()), false);
+        }
+    }
+}
+pub proof fn lemma_body_loop_closed(r: Seq<u8>, b: Seq<u8>, acc: Seq<u8>, pd: bool)
+    requires body_loop(r, b, acc).0,
+    ensures closed(r, b, pd) == (if body_loop(r, b, acc).2.len() == 0 { true } else { closed(body_loop(r, b, acc).2, b, true) }),
+    decreases r.len()
+{
+    lemma_line_len(r);
+    if r.len() != 0 && !is_delim(first_line(r), b) {
+        lemma_body_loop_closed(after_line(r), b, acc + first_line(r), false);
+    }
+}
+pub proof fn lemma_parse_rec_closed(r: Seq<u8>, b: Seq<u8>, first: bool, acc: Seq<PV>)
+    requires parse_rec(r, b, first, acc) is Some,
+    ensures closed(r, b, !first),
+    decreases r.len()
+{
+    lemma_line_len(r);
+    let r1 = if first { after_line(r) } else { r };
+    lemma_hdr_loop_closed(r1, b, Seq::empty(), true);
+    lemma_hdr_loop_shrinks(r1, b, Seq::empty());
+    match hdr_loop(r1, b, Seq::empty()) {
+        HdrOut::Body(hs, r2) => {
+            let bl = body_loop(r2, b, Seq::empty());
+            lemma_body_loop_shrinks(r2, b, Seq::empty());
+            lemma_body_loop_closed(r2, b, Seq::empty(), false);
+            if bl.2.len() != 0 { lemma_parse_rec_closed(bl.2, b, false, acc.push((hs, trim_body(bl.1)))); }
+            assert(closed(r1, b, true));
+        },
+        _ => {},
+    }
+    if first {
+        // the opening line is a delimiter; an empty input has no such line followed by anything acceptable
+        if r.len() == 0 {
+            assert(r1.len() == 0);
+            assert(first_line(r1) =~= first_line(r));
+        }
+    }
+}
+pub proof fn theorem_multipart_no_closing_boundary(data: Seq<u8>, b: Seq<u8>)
+    requires parse_spec(data, b) is Some,
+    ensures closed(data, b, false),
+{
+    lemma_parse_rec_closed(data, b, true, Seq::empty());
+}
